@@ -1,17 +1,18 @@
 #!/bin/bash
 # Apply every seeded change under /verif/seeded/ to /repo in turn, run the quick check of
 # the property it breaks, undo it.  Every one must be reported (exit 1).
+REPO="${REPO:-/repo}"
 cd "$(dirname "$0")/.." || exit 2
-[ -z "$(git -C /repo status --short)" ] || { echo "/repo is not clean"; exit 2; }
+[ -z "$(git -C "$REPO" status --short)" ] || { echo "$REPO is not clean"; exit 2; }
 ./check setup > /dev/null || exit 2
 missed=0
 for d in seeded/*/; do
   name=$(basename "$d")
   prop=$(python3 -c "import json,sys; print(json.load(open('$d/meta.json'))['breaks_property'])" 2>/dev/null)
   [ -z "$prop" ] && prop=$(echo "$name" | cut -c1-3 | tr a-z A-Z)
-  if ! git -C /repo apply "/verif/$d/patch.diff" 2>/dev/null; then echo "$name: patch no longer applies to /repo HEAD"; continue; fi
+  if ! git -C "$REPO" apply "$PWD/$d/patch.diff" 2>/dev/null; then echo "$name: patch no longer applies to /repo HEAD"; continue; fi
   VERIF_SHRINK_BUDGET=0 ./check "$prop" quick > "/tmp/regress-$name.log" 2>&1; rc=$?
-  git -C /repo checkout -- .
+  git -C "$REPO" checkout -- .
   kinds=$(grep -E "violation tally" "/tmp/regress-$name.log" | sed -E 's/.*x //' | cut -c1-80 | sort -u | head -3 | tr '\n' ';')
   echo "$name: $prop exit=$rc $kinds"
   [ $rc -eq 1 ] || missed=$((missed+1))
